@@ -2,6 +2,7 @@
 build configurations, which rejection reasons belong to the property) and the generic runner."""
 import json
 import os
+import re
 import shutil
 import time
 from concurrent.futures import ThreadPoolExecutor
@@ -17,8 +18,8 @@ ASAN = 'small_sse_cache_seq_asan'
 ALG_REASONS = {'result', 'frame', 'stray', 'crash', 'unexpected_die', 'die_touched', 'unknown_op'}
 
 
-def mcjob(module, cfg=None, workers=8, timeout=900, xmx='8g'):
-    return dict(module=module, cfg=cfg or module, workers=workers, timeout=timeout, xmx=xmx)
+def mcjob(module, cfg=None, workers=8, timeout=900, xmx='8g', witness=False):
+    return dict(module=module, cfg=cfg or module, workers=workers, timeout=timeout, xmx=xmx, witness=witness)
 
 
 def c01_jobs(tier, seed):
@@ -72,7 +73,85 @@ def views_jobs(tier, seed):
     return jobs
 
 
+CAP = 'small_sse_cache_seq_cap'
+TS = 'mid_nosse_ts_seq'
+
+
+def tla_hist_to_json(text):
+    """<<[h |-> 0, op |-> "init", sz |-> "big"], ...>> -> JSON list"""
+    out = []
+    for rec in re.findall(r'\[([^\]]*)\]', text):
+        d = {}
+        for fld in rec.split(','):
+            k, _, v = fld.partition('|->')
+            v = v.strip()
+            d[k.strip()] = v.strip('"') if v.startswith('"') else int(v)
+        out.append(d)
+    return json.dumps(out, separators=(',', ':'))
+
+
+def c14_prepare(tier, seed, rundir):
+    """spec -> code: TLC enumerates one shortest history per distinct allocator state (Gen_Alloc, constants of the
+    reduced-capacity build); the histories are replayed on the real allocator by the 'alloc' family"""
+    depth = 5 if tier == 'thorough' else 4
+    cfg = open(V + '/spec/gen/Gen_Alloc.cfg').read().replace('Depth = 5', 'Depth = %d' % depth).replace('INVARIANT Emit\n', '')
+    cpath = os.path.join(rundir, 'Gen_Alloc_run.cfg')
+    open(cpath, 'w').write(cfg)
+    dump = os.path.join(rundir, 'gen_alloc.dump')
+    meta = os.path.join(rundir, 'meta_gen')
+    rc, o = vlib.sh([V + '/bin/tlc.sh', V + '/spec/gen/Gen_Alloc.tla', cpath, meta, '-workers', '8', '-dump', dump],
+                    env={'JAVA_TOOL_OPTIONS': '-Xss512m -Xmx8g -XX:+UseParallelGC', 'TLC_TIMEOUT': '1500'}, cwd=V + '/spec/gen', timeout=1600)
+    shutil.rmtree(meta, ignore_errors=True)
+    (gen, dist), viol = vlib.parse_mc(o)
+    if rc != 0 or viol or dist == 0:
+        raise Infra('Gen_Alloc failed (rc=%d, %s):\n%s' % (rc, viol, o[-2000:]))
+    hist = os.path.join(rundir, 'alloc_histories.ndjson')
+    n = 0
+    with open(dump) as f, open(hist, 'w') as g:
+        block = []
+        for line in f:
+            if line.startswith('State '):
+                block = []
+            block.append(line.rstrip('\n'))
+            if line.strip() == '' and block:
+                txt = ' '.join(block)
+                i = txt.find('/\\ hist = ')
+                if i >= 0:
+                    h = txt[i + 10:]
+                    j = h.find('/\\ ', 1)
+                    h = h if j < 0 else h[:j]
+                    js = tla_hist_to_json(h)
+                    if js != '[]':
+                        g.write(js + '\n')
+                        n += 1
+                block = []
+    os.remove(dump)
+    log('[gen] Gen_Alloc depth<%d: %d distinct allocator states -> %d histories to replay' % (depth, dist, n))
+    return {'generated_histories': n, 'generator_states': dist, 'generator_depth': depth}
+
+
+def c14_jobs(tier, seed, rundir):
+    hist = os.path.join(rundir, 'alloc_histories.ndjson')
+    q = tier == 'quick'
+    return [TraceJob(CAP, 'alloc', shards=8, args=['--extra', 'hist=' + hist], spec='TraceAlloc', label='alloc-replay@' + CAP, timeout=3000),
+            TraceJob(SMALL, 'alloc', shards=4 if q else 8, args=['--cases', 8 if q else 48], spec='TraceAlloc', label='alloc-random@' + SMALL, timeout=3000),
+            TraceJob(CAP, 'alloc', shards=2 if q else 4, args=['--cases', 4 if q else 24], spec='TraceAlloc', label='alloc-random@' + CAP, timeout=3000),
+            TraceJob(TS, 'alloc', shards=2 if q else 4, args=['--cases', 4 if q else 24], spec='TraceAlloc', label='alloc-random@' + TS, timeout=3000)]
+
+
+def c14_mc(tier):
+    d = 'MC_Alloc_quick' if tier == 'quick' else 'MC_Alloc'
+    return [mcjob('MC_Alloc', d, workers=16, timeout=2400, xmx='16g'),
+            mcjob('MC_Alloc', 'MC_Alloc_wit_evict', workers=8, witness=True), mcjob('MC_Alloc', 'MC_Alloc_wit_spill', workers=8, witness=True),
+            mcjob('MC_Alloc', 'MC_Alloc_wit_unlink', workers=8, witness=True)]
+
+
 PROPS = {
+    'C14': dict(level='model_checking', reasons={'heap_calls', 'fresh_not_zero_or_live_corrupted', 'storage_shared', 'live_matrix_corrupted', 'free_of_non_live_pointer',
+                                                 'spec_invariant', 'memory_retained', 'harness_precondition', 'crash'},
+                prepare=c14_prepare, jobs=c14_jobs, mc=c14_mc,
+                assumptions=['the link-time malloc/free wrappers see every heap call of the m4ri objects', 'header-cache geometry (64 headers per block) is a constant of the code',
+                             'random histories are sampled; generated histories are exhaustive up to the stated depth for the reduced-capacity build']),
     'C09': dict(level='model_checking', reasons=ALG_REASONS | {'padding'}, jobs=views_jobs, mc=lambda tier: [], assumptions=GEN_ASSUME + [
         'window placements are sampled from the classes row offset {0,1,5} x word offset {0,1,2,3} x parent wider by {0,1,17,64,65,130} columns x rows below or not']),
     'C02': alg(simple_jobs('elim', 640)),
@@ -125,11 +204,15 @@ def run_property(prop, tier, seed):
     P = PROPS[prop]
     if 'custom' in P:
         return P['custom'](prop, tier, seed)
-    jobs = P['jobs'](tier, seed)
-    mcs = P['mc'](tier)
     rundir = os.path.join(vlib.BUILD, 'run', '%s-%s' % (prop, tier))
     shutil.rmtree(rundir, ignore_errors=True)
     os.makedirs(rundir)
+    vlib.build_overrides()
+    extra_cov = {}
+    if 'prepare' in P:
+        extra_cov = P['prepare'](tier, seed, rundir) or {}
+    jobs = P['jobs'](tier, seed) if 'prepare' not in P else P['jobs'](tier, seed, rundir)
+    mcs = P['mc'](tier)
     vlib.build(sorted(set(j.cfg for j in jobs)))
     known = vlib.load_known()
     res = dict(level=P['level'], violations=[], known=[], assumptions=P['assumptions'])
@@ -142,7 +225,13 @@ def run_property(prop, tier, seed):
                                                                     (' VIOLATION ' + r['violation']) if r['violation'] else ''))
         states += r['distinct']
         trans += r['generated']
-        mc_summ.append({'module': m['module'], 'cfg': m['cfg'], 'distinct_states': r['distinct'], 'states_generated': r['generated'], 'secs': round(r['secs'], 1)})
+        mc_summ.append({'module': m['module'], 'cfg': m['cfg'], 'distinct_states': r['distinct'], 'states_generated': r['generated'], 'secs': round(r['secs'], 1),
+                        'expect_violation': bool(m.get('witness'))})
+        if m.get('witness'):
+            # reachability witness: the "never" invariant must be violated, else the model cannot reach the case (vacuity)
+            if not r['violation']:
+                raise Infra('vacuity: witness %s/%s was not reached by the model' % (m['module'], m['cfg']))
+            continue
         if r['violation']:
             path = '%s/replays/%s_mc_%s.txt' % (V, prop, m['cfg'])
             os.makedirs(V + '/replays', exist_ok=True)
@@ -176,7 +265,16 @@ def run_property(prop, tier, seed):
         # event statistics
         with open(tr) as f:
             for ln in f:
-                if ln.startswith('{"e":"op"'):
+                if ln.startswith('{"e":"aop"'):
+                    ev = json.loads(ln)
+                    s = {'op': 'alloc:' + ev['op'], 'size': ev['size'], 'heap_calls': [[c[0], c[1]] for c in ev['obs']][:12]}
+                    key = json.dumps(s, sort_keys=True)
+                    if key not in sigs:
+                        sigs.add(key)
+                        if len(samples) < 6 and (len(sigs) % 5 == 1):
+                            samples.append(s)
+                    perop[s['op']] = perop.get(s['op'], 0) + 1
+                elif ln.startswith('{"e":"op"'):
                     ev = json.loads(ln)
                     s = summarize_event(ev)
                     key = json.dumps(s, sort_keys=True)
@@ -241,6 +339,7 @@ def run_property(prop, tier, seed):
         'build_configurations': sorted(set(j.cfg for j in jobs)),
         'rejections_left_to_other_properties': other,
     }
+    res['coverage'].update(extra_cov)
     return res
 
 
